@@ -70,11 +70,11 @@ End KMap.
 Record cfg := { max_history : Z }.           (* spending_limit::MAX_HISTORY_ENTRIES *)
 
 (* ---- authorisation contexts (soroban_sdk::auth::Context) ----
-   Only what the policies look at: the kind, the function name (0 = "transfer",
+   The token contract called (the policies never look at it), the kind, the function name (0 = "transfer",
    anything else = another symbol) and, per argument, whether it converts to i128. *)
 Inductive arg := AI128 (z : Z) | AOther.
 Inductive context :=
-| CContract (fn : N) (args : list arg)
+| CContract (tok : N) (fn : N) (args : list arg)   (* token contract called, function name, arguments *)
 | CCreate                                   (* CreateContractHostFn *)
 | CCreateCtor.                              (* CreateContractWithCtorHostFn *)
 Definition FN_TRANSFER : N := 0%N.
@@ -83,7 +83,7 @@ Definition FN_TRANSFER : N := 0%N.
    "transfer", args.get(2) present and i128::try_from_val succeeds *)
 Definition transfer_amount (c : context) : option Z :=
   match c with
-  | CContract fn args =>
+  | CContract _ fn args =>                     (* ONE budget for all token contracts *)
       if N.eqb fn FN_TRANSFER then
         match nth_error args 2 with
         | Some (AI128 a) => if in_i128 a then Some a else None
